@@ -579,6 +579,7 @@ def build_pipeline_inspection(
     deleted_keys: set[str] = set()  # Tracks keys that have been deleted from context
     all_required_params: set[str] = set()  # All parameters required from context
     all_created_keys: set[str] = set()  # All keys created by any node
+    external_required: set[str] = set()  # Keys that must come from the initial context
     errors: List[str] = []
 
     # Process each node configuration
@@ -732,6 +733,16 @@ def build_pipeline_inspection(
 
         all_required_params.update(required_params)
 
+        # Keys required here that earlier nodes deleted cannot be resolved at run time
+        # (checked before this node's own effects are applied)
+        missing_deleted = required_params & deleted_keys
+        # Keys required here that no earlier node produced must be in the initial context
+        external_required.update(
+            key
+            for key in required_params
+            if key not in key_origin and key not in deleted_keys
+        )
+
         required_external_parameters: List[str] = []
         required_hook = getattr(
             processor.__class__, "get_required_external_parameters", None
@@ -784,7 +795,6 @@ def build_pipeline_inspection(
             deleted_keys.update(suppressed_keys)
 
         # Validate parameter availability against deleted keys
-        missing_deleted = (required_params & deleted_keys) - suppressed_keys
         if missing_deleted - set(config_params.keys()):
             node_errors.append(
                 f"Node {index} requires context keys previously deleted: {sorted(missing_deleted)}"
@@ -830,7 +840,7 @@ def build_pipeline_inspection(
 
     # Calculate pipeline-level required context keys
     # These are parameters required by nodes but not created by any node
-    required_context_keys = all_required_params - all_created_keys
+    required_context_keys = external_required
 
     return PipelineInspection(
         nodes=inspection_nodes,
